@@ -20,6 +20,8 @@ fn apply_params(ctx: &Ctx) {
 }
 
 fn main() {
+    #[cfg(feature = "asan")]
+    std::hint::black_box(interpose::asan_recv::anchor());
     install_panic_hook();
     let args: Vec<String> = std::env::args().collect();
     if args.len() < 2 {
